@@ -29,6 +29,8 @@ def evaluate(d):
         res["tests"] = out.strip().splitlines()[-1][:14] if out.strip() else ""
         ev = tempfile.mkdtemp(prefix="refev_")
         env2 = dict(os.environ, CMINX_SA_EVIDENCE_DIR=ev)
+        if os.environ.get("EVAL_NO_CONTROLS"):
+            env2["CMINX_SA_NO_CONTROLS"] = "1"
         for p in PROPS:
             for tier in ("quick", "thorough"):
                 rc, out = sh(["/venv/bin/python", "-B", "-m", "cminx_sa", p, tier, "--repo", wt], cwd=VERIF, env=env2)
